@@ -68,6 +68,8 @@ func (in *Interp) buildInt(s *GenSpec) *rapid.Generator[int] {
 		return rapid.Map(rapid.Uint8(), func(u uint8) int { return int(u) })
 	case "filter_even":
 		return in.buildInt(s.Sub).Filter(func(v int) bool { return v%2 == 0 })
+	case "filter_rare":
+		return in.buildInt(s.Sub).Filter(func(v int) bool { return v%5 == 0 }) // ~20% acceptance: often gives up
 	case "filter_never":
 		return rapid.IntRange(0, 9).Filter(func(v int) bool { return false }) // always gives up: the test case is invalid
 	case "map_x2":
